@@ -1,4 +1,4 @@
-CONSTANTS Variant = "coded"  Mode = "crop"  MaxCtx = 10  MaxSpan = 0
+CONSTANTS Variant = "coded"  Mode = "crop"  MaxCtx = 24  MaxSpan = 0
 CONSTANTS CtxLens <- CtxLensSmall  StartMags <- StartMagsTiny  LenMags <- LenMagsSmall  Deltas <- Deltas0
 INIT CropInit
 NEXT CropNext
